@@ -1,24 +1,32 @@
 // C10 -- Prescribed motion and locks are honoured exactly.
 // Engine E2 + twin-system differential: for every (governed mobilizer kind x role x coordinate option x
-// governance kind) all operation histories up to a depth over {lock(level), lockAt, unlock, Motion
+// governance kind) all operation histories up to a depth over {lock(level), lockAt(level), unlock, Motion
 // disable/enable, set q/u, set time, prescribe, realize} are replayed on the real system; after each,
 // prescribe+realize(Acceleration) must give (1) governed q/u/udot equal to the prescribed values of a
 // boring harness model of "who governs this mobilizer now", (2) zero motion errors at all three levels,
 // (3) accelerations equal to those of a TWIN system without any prescription in which the reported
 // motion forces are applied as ordinary mobility forces, and bitwise equal to the twin when nothing governs.
+//
+// Section "constrained": the same governance alphabet on a four-body tree (Ground-A-B-D, Ground-C) that ALSO carries
+// constraints (Rod / Ball closing a loop through or around the governed mobilizer, ConstantSpeed / ConstantAcceleration on
+// a free mobility, CoordinateCouplers of free coordinates and of a governed with a free coordinate, several at once) and
+// optionally a SECOND governed mobilizer (locked or driven by a Motion) -- see runConstrained().
 #include "Simbody.h"
 #include "verif.h"
 #include "models.h"
+#include "consmodels.h"
 
 using namespace SimTK;
 
 // ---------------------------------------------------------------- governance kinds for the governed body
-enum Gov { GFree, GSteady, GSinP, GSinV, GSinA, GCustomP, GCustomV, GDefLockP, GDefLockV, GDefLockA, GQuatP, NGOV };
-static const char* govName(int g) { static const char* n[] = {"free", "Steady", "Sinusoid(P)", "Sinusoid(V)", "Sinusoid(A)", "Custom(P)", "Custom(V)", "lockByDefault(P)", "lockByDefault(V)", "lockByDefault(A)", "CustomQuaternion(P)"}; return n[g]; }
+enum Gov { GFree, GSteady, GSinP, GSinV, GSinA, GCustomP, GCustomV, GDefLockP, GDefLockV, GDefLockA, GQuatP, GCustomA, GCustomVq, NGOV };
+static const char* govName(int g) { static const char* n[] = {"free", "Steady", "Sinusoid(P)", "Sinusoid(V)", "Sinusoid(A)", "Custom(P)", "Custom(V)", "lockByDefault(P)", "lockByDefault(V)", "lockByDefault(A)", "CustomQuaternion(P)", "Custom(A)", "Custom(V,q-dependent)"}; return n[g]; }
 static const Real SA = 0.35, SW = 1.7, SP = 0.4;    // sinusoid amplitude, rate, phase
 static const Real STEADY = 0.7;
 
-// custom motion: per-coordinate polynomial c0+c1 t+c2 t^2 with coordinate-dependent coefficients
+// custom motion: per-coordinate polynomial c0+c1 t+c2 t^2 with coordinate-dependent coefficients.  At Acceleration level
+// (only calcPrescribedAcceleration is implemented) udot = udot(t,q,u) as the documentation allows: a linear function of
+// time plus a function of ALL positions and speeds of the system.
 class PolyMotion : public Motion::Custom::Implementation {
 public:
     explicit PolyMotion(Motion::Level l) : level(l) {}
@@ -30,7 +38,32 @@ public:
     void calcPrescribedPositionDotDot(const State&, int nq, Real* qdd) const override { for (int i = 0; i < nq; ++i) qdd[i] = 2 * c2(i); }
     void calcPrescribedVelocity(const State& s, int nu, Real* u) const override { Real t = s.getTime(); for (int i = 0; i < nu; ++i) u[i] = c0(i) + c1(i) * t + c2(i) * t * t; }
     void calcPrescribedVelocityDot(const State& s, int nu, Real* ud) const override { Real t = s.getTime(); for (int i = 0; i < nu; ++i) ud[i] = c1(i) + 2 * c2(i) * t; }
+    static Real accelOf(const State& s, int i) {
+        const Vector& q = s.getQ(); const Vector& u = s.getU(); Real w = 0;
+        for (int j = 0; j < q.size(); ++j) w += 0.1 * std::sin(q[j]);
+        for (int j = 0; j < u.size(); ++j) w -= 0.05 * u[j];
+        return c1(i) + 0.5 * c0(i) * s.getTime() + w;
+    }
+    void calcPrescribedAcceleration(const State& s, int nu, Real* ud) const override { for (int i = 0; i < nu; ++i) ud[i] = accelOf(s, i); }
     Motion::Level level;
+};
+// velocity-level custom motion u = u(t,q): the polynomial plus a function of the first coordinate of ANOTHER mobilizer
+// (an angle with qdot = u); udot is its exact time derivative (needs that mobilizer's qdot).
+static const Real VQAMP = 0.25;
+class PolyMotionVq : public Motion::Custom::Implementation {
+public:
+    PolyMotionVq(const SimbodyMatterSubsystem& m, MobilizedBodyIndex o) : matter(&m), other(o) {}
+    Implementation* clone() const override { return new PolyMotionVq(*this); }
+    Motion::Level getLevel(const State&) const override { return Motion::Velocity; }
+    void calcPrescribedVelocity(const State& s, int nu, Real* u) const override {
+        const Real t = s.getTime(), qo = matter->getMobilizedBody(other).getOneQ(s, 0);
+        for (int i = 0; i < nu; ++i) u[i] = PolyMotion::c0(i) + PolyMotion::c1(i) * t + PolyMotion::c2(i) * t * t + VQAMP * std::sin(qo);
+    }
+    void calcPrescribedVelocityDot(const State& s, int nu, Real* ud) const override {
+        const Real t = s.getTime(), qo = matter->getMobilizedBody(other).getOneQ(s, 0), qdo = matter->getMobilizedBody(other).getOneQDot(s, 0);
+        for (int i = 0; i < nu; ++i) ud[i] = PolyMotion::c1(i) + 2 * PolyMotion::c2(i) * t + VQAMP * std::cos(qo) * qdo;
+    }
+    const SimbodyMatterSubsystem* matter; MobilizedBodyIndex other;
 };
 
 // position-level motion for quaternion mobilizers: rotation about a fixed axis A by theta(t) = T0 + T1 t + T2 t^2/2 (unit
@@ -58,6 +91,26 @@ public:
     }
 };
 
+// attach the Motion (or default lock) of governance kind `gov` to gb; `other` = body read by the q-dependent velocity
+// motion.  Returns true when a Motion object was created.
+static bool attachMotion(mb::Model& M, MobilizedBody& gb, int gov, const MobilizedBody& other, Motion& out) {
+    switch (gov) {
+        case GSteady: out = Motion::Steady(gb, STEADY); return true;
+        case GSinP: out = Motion::Sinusoid(gb, Motion::Position, SA, SW, SP); return true;
+        case GSinV: out = Motion::Sinusoid(gb, Motion::Velocity, SA, SW, SP); return true;
+        case GSinA: out = Motion::Sinusoid(gb, Motion::Acceleration, SA, SW, SP); return true;
+        case GCustomP: out = Motion::Custom(gb, new PolyMotion(Motion::Position)); return true;
+        case GCustomV: out = Motion::Custom(gb, new PolyMotion(Motion::Velocity)); return true;
+        case GCustomA: out = Motion::Custom(gb, new PolyMotion(Motion::Acceleration)); return true;
+        case GCustomVq: out = Motion::Custom(gb, new PolyMotionVq(M.matter, other.getMobilizedBodyIndex())); return true;
+        case GQuatP: out = Motion::Custom(gb, new QuatMotion()); return true;
+        case GDefLockP: gb.lockByDefault(Motion::Position); return false;
+        case GDefLockV: gb.lockByDefault(Motion::Velocity); return false;
+        case GDefLockA: gb.lockByDefault(Motion::Acceleration); return false;
+        default: return false;
+    }
+}
+
 struct Sys {
     std::unique_ptr<mb::Model> M;
     Motion motion; bool hasMotion = false;
@@ -78,77 +131,184 @@ static Sys buildSys(int kind, int dir, int role, bool euler, int gov, bool twin)
     Force::Gravity(M.forces, M.matter, UnitVec3(0.2, -1, 0.1), 9.8);
     Force::MobilityLinearDamper(M.forces, M.bodies[1 - S.gi], MobilizerUIndex(0), 0.8);
     S.inject = Force::DiscreteForces(M.forces, M.matter);
-    if (!twin) {
-        MobilizedBody& gb = M.bodies[S.gi];
-        switch (gov) {
-            case GSteady: S.motion = Motion::Steady(gb, STEADY); S.hasMotion = true; break;
-            case GSinP: S.motion = Motion::Sinusoid(gb, Motion::Position, SA, SW, SP); S.hasMotion = true; break;
-            case GSinV: S.motion = Motion::Sinusoid(gb, Motion::Velocity, SA, SW, SP); S.hasMotion = true; break;
-            case GSinA: S.motion = Motion::Sinusoid(gb, Motion::Acceleration, SA, SW, SP); S.hasMotion = true; break;
-            case GCustomP: S.motion = Motion::Custom(gb, new PolyMotion(Motion::Position)); S.hasMotion = true; break;
-            case GCustomV: S.motion = Motion::Custom(gb, new PolyMotion(Motion::Velocity)); S.hasMotion = true; break;
-            case GQuatP: S.motion = Motion::Custom(gb, new QuatMotion()); S.hasMotion = true; break;
-            case GDefLockP: gb.lockByDefault(Motion::Position); break;
-            case GDefLockV: gb.lockByDefault(Motion::Velocity); break;
-            case GDefLockA: gb.lockByDefault(Motion::Acceleration); break;
-            default: break;
-        }
-    }
+    if (!twin) S.hasMotion = attachMotion(M, M.bodies[S.gi], gov, M.bodies[1 - S.gi], S.motion);
     M.system.realizeTopology();
     return S;
 }
 
-// ---------------------------------------------------------------- boring model of governance
+// ---------------------------------------------------------------- boring model of governance (one per mobilizer)
 struct GovModel {
     int lockLevel = -1;              // -1 none, 0 P, 1 V, 2 A
-    std::vector<double> lockVal;     // q (P) or u (V) captured when locked
+    std::vector<double> lockVal;     // q (P), u (V) or udot (A; empty = zero) captured / given when locked
     bool motionEnabled = false;
     int gov = GFree;
     double steadyRate = 0.7;
+    int other = -1;                  // body whose first coordinate the q-dependent velocity motion reads
     // active governance level: 0 P, 1 V, 2 A, -1 none ; source 0 lock, 1 motion
     int activeLevel() const {
         if (lockLevel >= 0) return lockLevel;
-        if (motionEnabled) switch (gov) { case GSteady: case GSinV: case GCustomV: return 1; case GSinP: case GCustomP: case GQuatP: return 0; case GSinA: return 2; default: return -1; }
+        if (motionEnabled) switch (gov) { case GSteady: case GSinV: case GCustomV: case GCustomVq: return 1; case GSinP: case GCustomP: case GQuatP: return 0; case GSinA: case GCustomA: return 2; default: return -1; }
         return -1;
     }
     bool byLock() const { return lockLevel >= 0; }
 };
 
-enum OpK { OLockP, OLockV, OLockA, OLockAtP, OUnlock, OMotionDisable, OMotionEnable, OSetQ, OSetU, OSetTime, OPrescribe, ORealizeAcc, OSetQOther, OSetRate, NOPS };
-static const char* opName(int o) { static const char* n[] = {"lock(P)", "lock(V)", "lock(A)", "lockAt(vec,P)", "unlock", "motion.disable", "motion.enable", "setQ(governed)", "setU(governed)", "setTime(0.3)", "prescribe", "realize(Acceleration)", "setQ(other)", "Steady.setRate(1.3)"}; return n[o]; }
+enum OpK { OLockP, OLockV, OLockA, OLockAtP, OUnlock, OMotionDisable, OMotionEnable, OSetQ, OSetU, OSetTime, OPrescribe, ORealizeAcc, OSetQOther, OSetRate, OLockAtV, OLockAtA, NOPS };
+static const char* opName(int o) { static const char* n[] = {"lock(P)", "lock(V)", "lock(A)", "lockAt(vec,P)", "unlock", "motion.disable", "motion.enable", "setQ(governed)", "setU(governed)", "setTime(0.3)", "prescribe", "realize(Acceleration)", "setQ(other)", "Steady.setRate(1.3)", "lockAt(values,V)", "lockAt(values,A)"}; return n[o]; }
+// explicit lock values (non-zero: selects the Prescribed rather than the Zero method for a lock)
+static Real lockAtU(int i) { return 0.35 - 0.2 * i; }
+static Real lockAtUDot(int i) { return -0.6 + 0.25 * i; }
 
 struct Case { int kind, dir, role, euler, gov; std::string str() const { return std::string(mb::kindName(kind)) + (dir ? "/rev" : "/fwd") + (role ? "/tip" : "/base") + (euler ? "/euler" : "/quat") + " gov=" + govName(gov); } };
 
 static Vector genericQ(const mb::Model& M, State& s, int bi, int vs) { State t = s; mb::setBodyQ(M, t, bi, 1, vs); return M.bodies[bi].getQAsVector(t); }
 
-struct Result { bool ok = true; std::string key, what; };
+// every distinct failing clause of one history (the first occurrence of each key)
+struct Fails {
+    std::vector<std::pair<std::string, std::string>> v;
+    void add(const std::string& k, const std::string& w) { for (auto& p : v) if (p.first == k) return; v.push_back({k, w}); }
+    bool ok() const { return v.empty(); }
+};
+struct Result { bool rejected = false; Fails F; bool ok() const { return F.ok(); } };
 static const double TOLV = 1e-12;
+static bool nearV(Real a, Real b) { return std::abs(a - b) <= TOLV * std::max({Real(1), std::abs(a), std::abs(b)}); }
+static std::string ix(const char* n, int i) { return std::string(n) + "[" + std::to_string(i) + "]"; }
+
+// ---- lock operations with the documented immediate effects on the state (shared by both sections)
+static void opLock(const MobilizedBody& gb, State& s, GovModel& G, int level, Fails& F) {
+    const int nq = gb.getNumQ(s), nu = gb.getNumU(s);
+    const Vector q0 = gb.getQAsVector(s), u0 = gb.getUAsVector(s);
+    gb.lock(s, level == 0 ? Motion::Position : level == 1 ? Motion::Velocity : Motion::Acceleration);
+    const Vector q = gb.getQAsVector(s), u = gb.getUAsVector(s);
+    G.lockLevel = level; G.lockVal.clear();
+    if (level == 0) {
+        G.lockVal.assign(&q[0], &q[0] + nq);
+        // documented immediate effect: q unchanged, u of this mobilizer set to zero in the state
+        for (int i = 0; i < nq; ++i) if (memcmp(&q[i], &q0[i], sizeof(double))) F.add("lock(P)-changed-q", ix("q", i));
+        for (int i = 0; i < nu; ++i) if (u[i] != 0) F.add("lock(P)-did-not-zero-u-immediately", ix("u", i) + "=" + verif::fmtd(u[i]));
+    } else if (level == 1) {
+        G.lockVal.assign(&u[0], &u[0] + nu);
+        for (int i = 0; i < nq; ++i) if (memcmp(&q[i], &q0[i], sizeof(double))) F.add("lock(V)-changed-q", ix("q", i));
+        for (int i = 0; i < nu; ++i) if (memcmp(&u[i], &u0[i], sizeof(double))) F.add("lock(V)-changed-u", ix("u", i));
+    }
+}
+// lockAt with explicit values; the scalar overload is used for one-coordinate mobilizers at the V and A levels, the
+// Vector overload otherwise
+static void opLockAt(const mb::Model& M, int bi, State& s, GovModel& G, int level, int vs, Fails& F) {
+    const MobilizedBody& gb = M.bodies[bi];
+    const int nq = gb.getNumQ(s), nu = gb.getNumU(s);
+    const Vector q0 = gb.getQAsVector(s);
+    Vector val;
+    if (level == 0) val = genericQ(M, s, bi, vs);
+    else { val.resize(nu); for (int i = 0; i < nu; ++i) val[i] = level == 1 ? lockAtU(i) : lockAtUDot(i); }
+    const Motion::Level L = level == 0 ? Motion::Position : level == 1 ? Motion::Velocity : Motion::Acceleration;
+    if (nq == 1 && nu == 1 && level != 0) gb.lockAt(s, val[0], L); else gb.lockAt(s, val, L);
+    G.lockLevel = level; G.lockVal.assign(&val[0], &val[0] + val.size());
+    const Vector q1 = gb.getQAsVector(s), u1 = gb.getUAsVector(s);
+    if (level == 0) {
+        for (int i = 0; i < nq; ++i) if (memcmp(&val[i], &q1[i], sizeof(double))) F.add("lockAt(P)-did-not-set-q-immediately", ix("q", i));
+        for (int i = 0; i < nu; ++i) if (u1[i] != 0) F.add("lockAt(P)-did-not-zero-u-immediately", ix("u", i) + "=" + verif::fmtd(u1[i]));
+    } else if (level == 1) {
+        // documented: "When locking at velocity level, this mobilizer's u in state is set to value but the q is left unchanged"
+        for (int i = 0; i < nu; ++i) if (memcmp(&val[i], &u1[i], sizeof(double))) F.add("lockAt(V)-did-not-set-u-immediately", ix("u", i) + "=" + verif::fmtd(u1[i]) + " value " + verif::fmtd(val[i]));
+        for (int i = 0; i < nq; ++i) if (memcmp(&q0[i], &q1[i], sizeof(double))) F.add("lockAt(V)-changed-q", ix("q", i));
+    }
+    const Vector lv = gb.getLockValueAsVector(s);
+    if (lv.size() != val.size()) F.add("getLockValueAsVector-wrong-length", std::to_string(lv.size()));
+    else for (int i = 0; i < val.size(); ++i) if (memcmp(&lv[i], &val[i], sizeof(double))) F.add("getLockValueAsVector-wrong-value", ix("value", i) + "=" + verif::fmtd(lv[i]));
+}
+
+// (1) the governed values of mobilizer bi against the model.  accel=false: the state is realized through Velocity only
+// (q, u, and qdot for position-level motions are judged); accel=true: through Acceleration.
+static void checkGoverned(const mb::Model& M, const State& s, int bi, const GovModel& G, Fails& F, bool accel) {
+    const int level = G.activeLevel();
+    if (level < 0) return;
+    const MobilizedBody& gb = M.bodies[bi];
+    const int nq = gb.getNumQ(s), nu = gb.getNumU(s);
+    const Real t = s.getTime();
+    const Vector q = gb.getQAsVector(s), u = gb.getUAsVector(s);
+    Vector ud(nu); ud = 0; if (accel) ud = gb.getUDotAsVector(s);
+    const std::string B = "body" + std::to_string(bi) + " ";
+    if (G.byLock()) {
+        if (level == 0) {
+            for (int i = 0; i < nq; ++i) if (memcmp(&q[i], &G.lockVal[i], sizeof(double))) F.add("locked-q-not-held", B + ix("q", i) + "=" + verif::fmtd(q[i]) + " but locked at " + verif::fmtd(G.lockVal[i]));
+            for (int i = 0; i < nu; ++i) if (u[i] != 0) F.add("locked-P-u-not-zero", B + ix("u", i) + "=" + verif::fmtd(u[i]));
+            if (accel) for (int i = 0; i < nu; ++i) if (!nearV(ud[i], 0)) F.add("locked-P-udot-not-zero", B + ix("udot", i) + "=" + verif::fmtd(ud[i]));
+        } else if (level == 1) {
+            for (int i = 0; i < nu; ++i) if (memcmp(&u[i], &G.lockVal[i], sizeof(double))) F.add("locked-u-not-held", B + ix("u", i) + "=" + verif::fmtd(u[i]) + " but locked at " + verif::fmtd(G.lockVal[i]));
+            if (accel) for (int i = 0; i < nu; ++i) if (!nearV(ud[i], 0)) F.add("locked-V-udot-not-zero", B + ix("udot", i) + "=" + verif::fmtd(ud[i]));
+        } else if (accel) {
+            if (G.lockVal.empty()) { for (int i = 0; i < nu; ++i) if (!nearV(ud[i], 0)) F.add("locked-A-udot-not-zero", B + ix("udot", i) + "=" + verif::fmtd(ud[i])); }
+            else for (int i = 0; i < nu; ++i) if (!nearV(ud[i], G.lockVal[i])) F.add("locked-A-udot-not-held", B + ix("udot", i) + "=" + verif::fmtd(ud[i]) + " but locked at " + verif::fmtd(G.lockVal[i]));
+        }
+    } else if (level == 0 && G.gov == GQuatP) {
+        // unit-quaternion trajectory: q, qdot, qdotdot as prescribed; u = A*theta' (angular velocity about the fixed axis, same in F and M)
+        // and udot = A*theta'' for the rotational speeds; translational q's (Free) follow the polynomials with u = qdot
+        QuatMotion qm; std::vector<Real> pq(nq), pqd(nq), pqdd(nq);
+        qm.calcPrescribedPosition(s, nq, pq.data()); qm.calcPrescribedPositionDot(s, nq, pqd.data()); qm.calcPrescribedPositionDotDot(s, nq, pqdd.data());
+        const Vector qd = gb.getQDotAsVector(s); Vector qdd(nq); qdd = 0; if (accel) qdd = gb.getQDotDotAsVector(s);
+        Real a, ad, add; QuatMotion::th(t, a, ad, add);
+        for (int i = 0; i < nq; ++i) {
+            if (!nearV(q[i], pq[i])) F.add("prescribed-q-wrong", B + ix("q", i) + "=" + verif::fmtd(q[i]) + " prescribed " + verif::fmtd(pq[i]));
+            if (std::abs(qd[i] - pqd[i]) > 1e-11) F.add("prescribed-qdot-wrong", B + ix("qdot", i) + "=" + verif::fmtd(qd[i]) + " prescribed " + verif::fmtd(pqd[i]));
+            if (accel && std::abs(qdd[i] - pqdd[i]) > 1e-10) F.add("prescribed-qdotdot-wrong", B + ix("qdotdot", i) + "=" + verif::fmtd(qdd[i]) + " prescribed " + verif::fmtd(pqdd[i]));
+        }
+        for (int i = 0; i < 3 && i < nu; ++i) {
+            if (std::abs(u[i] - QA[i] * ad) > 1e-11) F.add("prescribed-angular-velocity-wrong", B + ix("u", i) + "=" + verif::fmtd(u[i]) + " expected " + verif::fmtd(QA[i] * ad));
+            if (accel && std::abs(ud[i] - QA[i] * add) > 1e-10) F.add("prescribed-angular-acceleration-wrong", B + ix("udot", i) + "=" + verif::fmtd(ud[i]) + " expected " + verif::fmtd(QA[i] * add));
+        }
+    } else {
+        const Real sn = SA * std::sin(SW * t + SP), cs = SA * SW * std::cos(SW * t + SP), sn2 = -SA * SW * SW * std::sin(SW * t + SP);
+        const Vector qd = gb.getQDotAsVector(s); Vector qdd(nq); qdd = 0; if (accel) qdd = gb.getQDotDotAsVector(s);
+        Real qo = 0, qdo = 0; if (G.gov == GCustomVq) { qo = M.bodies[G.other].getOneQ(s, 0); qdo = M.bodies[G.other].getOneQDot(s, 0); }
+        for (int i = 0; i < (level == 0 ? nq : nu); ++i) {
+            Real p0, p1, p2;   // prescribed value, first and second derivative at the prescription level
+            if (G.gov == GSteady) { p0 = G.steadyRate; p1 = 0; p2 = 0; }
+            else if (G.gov == GCustomP || G.gov == GCustomV) { p0 = PolyMotion::c0(i) + PolyMotion::c1(i) * t + PolyMotion::c2(i) * t * t; p1 = PolyMotion::c1(i) + 2 * PolyMotion::c2(i) * t; p2 = 2 * PolyMotion::c2(i); }
+            else if (G.gov == GCustomVq) { p0 = PolyMotion::c0(i) + PolyMotion::c1(i) * t + PolyMotion::c2(i) * t * t + VQAMP * std::sin(qo); p1 = PolyMotion::c1(i) + 2 * PolyMotion::c2(i) * t + VQAMP * std::cos(qo) * qdo; p2 = 0; }
+            else if (G.gov == GCustomA) { p0 = PolyMotion::accelOf(s, i); p1 = p2 = 0; }
+            else { p0 = sn; p1 = cs; p2 = sn2; }
+            if (level == 0) {
+                if (!nearV(q[i], p0)) F.add("prescribed-q-wrong", B + ix("q", i) + "=" + verif::fmtd(q[i]) + " prescribed " + verif::fmtd(p0));
+                if (!nearV(qd[i], p1)) F.add("prescribed-qdot-wrong", B + ix("qdot", i) + "=" + verif::fmtd(qd[i]) + " prescribed " + verif::fmtd(p1));
+                if (accel && std::abs(qdd[i] - p2) > 1e-10 * std::max(Real(1), std::abs(p2))) F.add("prescribed-qdotdot-wrong", B + ix("qdotdot", i) + "=" + verif::fmtd(qdd[i]) + " prescribed " + verif::fmtd(p2));
+            } else if (level == 1) {
+                if (!nearV(u[i], p0)) F.add("prescribed-u-wrong", B + ix("u", i) + "=" + verif::fmtd(u[i]) + " prescribed " + verif::fmtd(p0));
+                if (accel && !nearV(ud[i], p1)) F.add("prescribed-udot-wrong", B + ix("udot", i) + "=" + verif::fmtd(ud[i]) + " prescribed " + verif::fmtd(p1));
+            } else {
+                if (accel && !nearV(ud[i], p0)) F.add("prescribed-udot-wrong", B + ix("udot", i) + "=" + verif::fmtd(ud[i]) + " prescribed " + verif::fmtd(p0));
+            }
+        }
+    }
+}
+// documented: calcMotionPower = -dot(tau, u)
+static void checkMotionPower(const SimbodyMatterSubsystem& matter, const State& s, const Vector& tau, Fails& F) {
+    const Vector& u = s.getU();
+    const Real pm = matter.calcMotionPower(s); Real ref = 0, sc = 1;
+    for (int i = 0; i < tau.size(); ++i) { ref -= tau[i] * u[i]; sc += std::abs(tau[i] * u[i]); }
+    if (!(std::abs(pm - ref) <= 1e-13 * sc)) F.add("calcMotionPower-not-minus-tau-dot-u", "power " + verif::fmtd(pm) + " expected " + verif::fmtd(ref));
+}
 
 static Result runHistory(verif::Run& run, const Case& c, const std::vector<int>& hist) {
-    Result R;
+    Result R; Fails& F = R.F;
     Sys S = buildSys(c.kind, c.dir, c.role, c.euler != 0, c.gov, false);
     mb::Model& M = *S.M; const MobilizedBody& gb = M.bodies[S.gi];
     State s = M.system.getDefaultState();
     M.matter.setUseEulerAngles(s, M.euler); M.system.realizeModel(s);
     const int nq = gb.getNumQ(s), nu = gb.getNumU(s);
-    GovModel G; G.gov = c.gov; G.motionEnabled = S.hasMotion;
+    GovModel G; G.gov = c.gov; G.motionEnabled = S.hasMotion; G.other = 1 - S.gi;
     if (c.gov == GDefLockP) { G.lockLevel = 0; Vector q = gb.getQAsVector(s); G.lockVal.assign(&q[0], &q[0] + nq); }
     if (c.gov == GDefLockV) { G.lockLevel = 1; G.lockVal.assign(nu, 0.0); }
     if (c.gov == GDefLockA) { G.lockLevel = 2; }
-    auto fail = [&](const std::string& k, const std::string& w) { if (R.ok) { R.ok = false; R.key = k; R.what = w; } };
     try {
         for (int o : hist) {
             switch (o) {
-                case OLockP: { Vector q0 = gb.getQAsVector(s); gb.lock(s, Motion::Position); G.lockLevel = 0; Vector q = gb.getQAsVector(s); G.lockVal.assign(&q[0], &q[0] + nq);
-                    // documented immediate effect: q unchanged, u of this mobilizer set to zero in the state
-                    for (int i = 0; i < nq; ++i) if (memcmp(&q[i], &q0[i], sizeof(double))) fail("lock(P)-changed-q", "q[" + std::to_string(i) + "]");
-                    Vector u1 = gb.getUAsVector(s); for (int i = 0; i < nu; ++i) if (u1[i] != 0) fail("lock(P)-did-not-zero-u-immediately", "u[" + std::to_string(i) + "]=" + verif::fmtd(u1[i])); } break;
-                case OLockV: gb.lock(s, Motion::Velocity); G.lockLevel = 1; { Vector u = gb.getUAsVector(s); G.lockVal.assign(&u[0], &u[0] + nu); } break;
-                case OLockA: gb.lock(s, Motion::Acceleration); G.lockLevel = 2; G.lockVal.clear(); break;
-                case OLockAtP: { Vector q = genericQ(M, s, S.gi, 2); gb.lockAt(s, q, Motion::Position); G.lockLevel = 0; G.lockVal.assign(&q[0], &q[0] + nq);
-                    Vector q1 = gb.getQAsVector(s), u1 = gb.getUAsVector(s);
-                    for (int i = 0; i < nq; ++i) if (memcmp(&q[i], &q1[i], sizeof(double))) fail("lockAt(P)-did-not-set-q-immediately", "q[" + std::to_string(i) + "]");
-                    for (int i = 0; i < nu; ++i) if (u1[i] != 0) fail("lockAt(P)-did-not-zero-u-immediately", "u[" + std::to_string(i) + "]=" + verif::fmtd(u1[i])); } break;
+                case OLockP: opLock(gb, s, G, 0, F); break;
+                case OLockV: opLock(gb, s, G, 1, F); break;
+                case OLockA: opLock(gb, s, G, 2, F); break;
+                case OLockAtP: opLockAt(M, S.gi, s, G, 0, 2, F); break;
+                case OLockAtV: opLockAt(M, S.gi, s, G, 1, 2, F); break;
+                case OLockAtA: opLockAt(M, S.gi, s, G, 2, 2, F); break;
                 case OUnlock: gb.unlock(s); G.lockLevel = -1; G.lockVal.clear(); break;
                 case OMotionDisable: if (S.hasMotion) { S.motion.disable(s); G.motionEnabled = false; } break;
                 case OMotionEnable: if (S.hasMotion) { S.motion.enable(s); G.motionEnabled = true; } break;
@@ -162,11 +322,10 @@ static Result runHistory(verif::Run& run, const Case& c, const std::vector<int>&
             }
         }
     } catch (const std::exception& e) {
-        run.count("history-rejected-by-library"); R.key = "rejected"; return R;
+        run.count("history-rejected-by-library"); R.rejected = true; return R;
     }
-    // documented immediate effects of lock on the state (checked through the final state below as well)
     const int level = G.activeLevel();
-    if (level == 0 && !G.byLock() && mb::kindHasQuaternion(c.kind) && !c.euler && c.gov != GQuatP) { run.count("skipped:position-level-motion-on-quaternion"); R.key = "rejected"; return R; }
+    if (level == 0 && !G.byLock() && mb::kindHasQuaternion(c.kind) && !c.euler && c.gov != GQuatP) { run.count("skipped:position-level-motion-on-quaternion"); R.rejected = true; return R; }
     // final: prescribe, then realize
     try {
         M.system.realize(s, Stage::Time);
@@ -175,71 +334,23 @@ static Result runHistory(verif::Run& run, const Case& c, const std::vector<int>&
     } catch (const std::exception& e) {
         // position-level prescription of quaternion coordinates etc. may legitimately be refused; count by message class
         run.count(std::string("final-realize-threw/") + govName(c.gov) + (mb::kindHasQuaternion(c.kind) && !c.euler ? "/quat" : ""));
-        R.key = "rejected"; return R;
+        R.rejected = true; return R;
     }
     const Real t = s.getTime();
-    const Vector q = gb.getQAsVector(s), u = gb.getUAsVector(s), ud = gb.getUDotAsVector(s);
-    auto near = [&](Real a, Real b) { return std::abs(a - b) <= TOLV * std::max({Real(1), std::abs(a), std::abs(b)}); };
     run.transition(1);
     // (1) governed values
-    if (G.byLock()) {
-        if (level == 0) {
-            for (int i = 0; i < nq; ++i) if (memcmp(&q[i], &G.lockVal[i], sizeof(double))) fail("locked-q-not-held", "q[" + std::to_string(i) + "]=" + verif::fmtd(q[i]) + " but locked at " + verif::fmtd(G.lockVal[i]));
-            for (int i = 0; i < nu; ++i) if (u[i] != 0) fail("locked-P-u-not-zero", "u[" + std::to_string(i) + "]=" + verif::fmtd(u[i]));
-            for (int i = 0; i < nu; ++i) if (!near(ud[i], 0)) fail("locked-P-udot-not-zero", "udot[" + std::to_string(i) + "]=" + verif::fmtd(ud[i]));
-        } else if (level == 1) {
-            for (int i = 0; i < nu; ++i) if (memcmp(&u[i], &G.lockVal[i], sizeof(double))) fail("locked-u-not-held", "u[" + std::to_string(i) + "]=" + verif::fmtd(u[i]) + " but locked at " + verif::fmtd(G.lockVal[i]));
-            for (int i = 0; i < nu; ++i) if (!near(ud[i], 0)) fail("locked-V-udot-not-zero", "udot[" + std::to_string(i) + "]=" + verif::fmtd(ud[i]));
-        } else {
-            for (int i = 0; i < nu; ++i) if (!near(ud[i], 0)) fail("locked-A-udot-not-zero", "udot[" + std::to_string(i) + "]=" + verif::fmtd(ud[i]));
-        }
-    } else if (level == 0 && c.gov == GQuatP) {
-        // unit-quaternion trajectory: q, qdot, qdotdot as prescribed; u = A*theta' (angular velocity about the fixed axis, same in F and M)
-        // and udot = A*theta'' for the rotational speeds; translational q's (Free) follow the polynomials with u = qdot
-        QuatMotion qm; std::vector<Real> pq(nq), pqd(nq), pqdd(nq);
-        qm.calcPrescribedPosition(s, nq, pq.data()); qm.calcPrescribedPositionDot(s, nq, pqd.data()); qm.calcPrescribedPositionDotDot(s, nq, pqdd.data());
-        const Vector qd = gb.getQDotAsVector(s), qdd = gb.getQDotDotAsVector(s);
-        Real a, ad, add; QuatMotion::th(t, a, ad, add);
-        for (int i = 0; i < nq; ++i) {
-            if (!near(q[i], pq[i])) fail("prescribed-q-wrong", "q[" + std::to_string(i) + "]=" + verif::fmtd(q[i]) + " prescribed " + verif::fmtd(pq[i]));
-            if (std::abs(qd[i] - pqd[i]) > 1e-11) fail("prescribed-qdot-wrong", "qdot[" + std::to_string(i) + "]=" + verif::fmtd(qd[i]) + " prescribed " + verif::fmtd(pqd[i]));
-            if (std::abs(qdd[i] - pqdd[i]) > 1e-10) fail("prescribed-qdotdot-wrong", "qdotdot[" + std::to_string(i) + "]=" + verif::fmtd(qdd[i]) + " prescribed " + verif::fmtd(pqdd[i]));
-        }
-        for (int i = 0; i < 3 && i < nu; ++i) {
-            if (std::abs(u[i] - QA[i] * ad) > 1e-11) fail("prescribed-angular-velocity-wrong", "u[" + std::to_string(i) + "]=" + verif::fmtd(u[i]) + " expected " + verif::fmtd(QA[i] * ad));
-            if (std::abs(ud[i] - QA[i] * add) > 1e-10) fail("prescribed-angular-acceleration-wrong", "udot[" + std::to_string(i) + "]=" + verif::fmtd(ud[i]) + " expected " + verif::fmtd(QA[i] * add));
-        }
-    } else if (level >= 0) {
-        const Real sn = SA * std::sin(SW * t + SP), cs = SA * SW * std::cos(SW * t + SP), sn2 = -SA * SW * SW * std::sin(SW * t + SP);
-        const Vector qd = gb.getQDotAsVector(s), qdd = gb.getQDotDotAsVector(s);
-        for (int i = 0; i < (level == 0 ? nq : nu); ++i) {
-            Real p0, p1, p2;   // prescribed value, first and second derivative at the prescription level
-            if (c.gov == GSteady) { p0 = G.steadyRate; p1 = 0; p2 = 0; }
-            else if (c.gov == GCustomP || c.gov == GCustomV) { p0 = PolyMotion::c0(i) + PolyMotion::c1(i) * t + PolyMotion::c2(i) * t * t; p1 = PolyMotion::c1(i) + 2 * PolyMotion::c2(i) * t; p2 = 2 * PolyMotion::c2(i); }
-            else { p0 = sn; p1 = cs; p2 = sn2; }
-            if (level == 0) {
-                if (!near(q[i], p0)) fail("prescribed-q-wrong", "q[" + std::to_string(i) + "]=" + verif::fmtd(q[i]) + " prescribed " + verif::fmtd(p0));
-                if (!near(qd[i], p1)) fail("prescribed-qdot-wrong", "qdot[" + std::to_string(i) + "]=" + verif::fmtd(qd[i]) + " prescribed " + verif::fmtd(p1));
-                if (std::abs(qdd[i] - p2) > 1e-10 * std::max(Real(1), std::abs(p2))) fail("prescribed-qdotdot-wrong", "qdotdot[" + std::to_string(i) + "]=" + verif::fmtd(qdd[i]) + " prescribed " + verif::fmtd(p2));
-            } else if (level == 1) {
-                if (!near(u[i], p0)) fail("prescribed-u-wrong", "u[" + std::to_string(i) + "]=" + verif::fmtd(u[i]) + " prescribed " + verif::fmtd(p0));
-                if (!near(ud[i], p1)) fail("prescribed-udot-wrong", "udot[" + std::to_string(i) + "]=" + verif::fmtd(ud[i]) + " prescribed " + verif::fmtd(p1));
-            } else {
-                if (!near(ud[i], p0)) fail("prescribed-udot-wrong", "udot[" + std::to_string(i) + "]=" + verif::fmtd(ud[i]) + " prescribed " + verif::fmtd(p0));
-            }
-        }
-    }
+    checkGoverned(M, s, S.gi, G, F, true);
     // (2) motion errors
     for (Stage g : {Stage::Position, Stage::Velocity, Stage::Acceleration}) {
         Vector e = M.matter.calcMotionErrors(s, g);
-        for (int i = 0; i < e.size(); ++i) if (!(std::abs(e[i]) <= 1e-10)) fail(std::string("calcMotionErrors-nonzero/") + g.getName(), "error[" + std::to_string(i) + "]=" + verif::fmtd(e[i]));
+        for (int i = 0; i < e.size(); ++i) if (!(std::abs(e[i]) <= 1e-10)) F.add(std::string("calcMotionErrors-nonzero/") + g.getName(), ix("error", i) + "=" + verif::fmtd(e[i]));
     }
     // (3) twin system without prescription, reported motion forces applied as ordinary mobility forces
     Vector tau; M.matter.findMotionForces(s, tau);
     const int nMult = M.matter.getMotionMultipliers(s).size();
     {
         int expected = level < 0 ? 0 : nu;
-        if (nMult != expected) fail("motion-multiplier-count", "getMotionMultipliers has " + std::to_string(nMult) + " entries, expected " + std::to_string(expected));
+        if (nMult != expected) F.add("motion-multiplier-count", "getMotionMultipliers has " + std::to_string(nMult) + " entries, expected " + std::to_string(expected));
     }
     Sys T = buildSys(c.kind, c.dir, c.role, c.euler != 0, GFree, true);
     mb::Model& TM = *T.M;
@@ -252,15 +363,17 @@ static Result runHistory(verif::Run& run, const Case& c, const std::vector<int>&
     TM.system.realize(ts, Stage::Acceleration);
     const Vector& a = s.getUDot(); const Vector& b = ts.getUDot();
     if (level < 0) {
-        for (int i = 0; i < a.size(); ++i) if (memcmp(&a[i], &b[i], sizeof(double))) fail("ungoverned-differs-from-twin", "udot[" + std::to_string(i) + "]=" + verif::fmtd(a[i]) + " twin " + verif::fmtd(b[i]));
+        for (int i = 0; i < a.size(); ++i) if (memcmp(&a[i], &b[i], sizeof(double))) F.add("ungoverned-differs-from-twin", ix("udot", i) + "=" + verif::fmtd(a[i]) + " twin " + verif::fmtd(b[i]));
     } else {
         Real scale = 1; for (int i = 0; i < a.size(); ++i) scale = std::max({scale, std::abs(a[i]), std::abs(b[i])});
         Real worst = 0; for (int i = 0; i < a.size(); ++i) worst = std::max(worst, std::abs(a[i] - b[i]) / scale);
         run.residual("udot-vs-twin-with-motion-forces", worst, 1e-11, [&] { return c.str(); });
-        if (!(worst <= 1e-11)) fail("udot-vs-twin-with-motion-forces", "worst relative difference " + verif::fmtd(worst));
+        if (!(worst <= 1e-11)) F.add("udot-vs-twin-with-motion-forces", "worst relative difference " + verif::fmtd(worst));
     }
+    checkMotionPower(M.matter, s, tau, F);
     run.outcome(verif::hashPod(level) ^ (verif::hashPod(G.byLock()) << 1) ^ verif::hashPod((int)nMult * 31 + c.gov));
     if (run.verbose) {
+        const Vector q = gb.getQAsVector(s), u = gb.getUAsVector(s);
         printf("%s\n active level=%d byLock=%d t=%g\n q=", c.str().c_str(), level, (int)G.byLock(), t);
         for (int i = 0; i < nq; ++i) printf("%.17g ", q[i]); printf("\n u="); for (int i = 0; i < nu; ++i) printf("%.17g ", u[i]);
         printf("\n udot(all)="); for (int i = 0; i < a.size(); ++i) printf("%.17g ", a[i]); printf("\n twin udot="); for (int i = 0; i < b.size(); ++i) printf("%.17g ", b[i]);
@@ -269,16 +382,381 @@ static Result runHistory(verif::Run& run, const Case& c, const std::vector<int>&
     return R;
 }
 
-static std::string histStr(const std::vector<int>& h) { std::string s; for (int o : h) s += std::string(opName(o)) + " ; "; return s; }
+// ================================================================ section "constrained"
+// Tree (indices in Model::bodies):   Ground --- A(0) --- B(1) --- D(3)        defaults: A Universal, B Ball, C Free, D Pin;
+//                                    Ground --- C(2)                          the governed position gets the governed kind.
+// Constraint alphabet (every set built from fixed stations / values):
+enum CCons { CNone, CRodBC, CBallBC, CRodGD, CRodAD, CSpeed, CAccel, CCouplerFree, CCouplerGov, CMulti, NCC };
+static const char* cconsName(int k) { static const char* n[] = {"none", "Rod(B,C)", "Ball(B,C)", "Rod(Ground,D)", "Rod(A,D)", "ConstantSpeed(free)", "ConstantAcceleration(free)", "CoordinateCoupler(free,free)", "CoordinateCoupler(governed,free)", "Rod(B,C)+ConstantAcceleration+CoordinateCoupler"}; return n[k]; }
+// governed mobilizer relative to the constraint: inside the constrained loop / kinematic path, or outside it
+static const char* insideOutside(int cons, int pos) {
+    switch (cons) {
+        case CRodBC: case CBallBC: case CMulti: return pos == 3 ? "outside(outboard-of-loop)" : "inside";
+        case CRodGD: return pos == 2 ? "outside(other-branch)" : "inside";
+        case CRodAD: return pos == 0 ? "outside(inboard-of-ancestor)" : pos == 2 ? "outside(other-branch)" : "inside";
+        case CCouplerGov: return "inside";
+        case CNone: return "none";
+        default: return "other-mobilizer";
+    }
+}
+// second governed mobilizer (D, or A when the primary is D), set up before the history
+enum Second { SNone, SLockP, SSteady, SLockAtV, SSinA, SLockAtA, NSEC };
+static const char* secName(int k) { static const char* n[] = {"none", "lock(P)", "Motion::Steady", "lockAt(values,V)", "Motion::Sinusoid(A)", "lockAt(values,A)"}; return n[k]; }
+
+enum COp { KLockP, KLockV, KLockA, KLockAtP, KLockAtV, KLockAtA, KUnlock, KMotionDisable, KMotionEnable, KSetQ, KSetU, KSetTime, KPrescribe, KProject, KRealizeAcc, KSetOthers, KConsDisable, KConsEnable, NCOPS };
+static const char* copName(int o) { static const char* n[] = {"lock(P)", "lock(V)", "lock(A)", "lockAt(values,P)", "lockAt(values,V)", "lockAt(values,A)", "unlock", "motion.disable", "motion.enable", "setQ(governed)", "setU(governed)", "setTime(0.3)", "prescribe", "project", "realize(Acceleration)", "setQU(others)", "constraint0.disable", "constraint0.enable"}; return n[o]; }
+
+struct CCase {
+    int kind, dir, pos, euler, gov, cons, sec;
+    std::string str() const { return std::string(mb::kindName(kind)) + (dir ? "/rev" : "/fwd") + "/at-" + std::string(1, "ABCD"[pos]) + (euler ? "/euler" : "/quat") + " gov=" + govName(gov) + " cons=" + cconsName(cons) + "[" + insideOutside(cons, pos) + "] second=" + secName(sec); }
+};
+// a coordinate with qdot = u (so that a CoordinateCoupler on it is a plain function of an angle or a translation)
+static bool simpleCoord(int kind, bool euler, int& qi, int& ui) {
+    switch (kind) {
+        case mb::KPin: case mb::KSlider: case mb::KUniversal: case mb::KPlanar: case mb::KTranslation: case mb::KCylinder: case mb::KCustomPin:
+        case mb::KFBPlanar: case mb::KScrew: case mb::KBendStretch: case mb::KSphericalDefault: case mb::KBushing: qi = ui = 0; return true;
+        case mb::KFree: qi = euler ? 5 : 6; ui = 5; return true;
+        default: return false;
+    }
+}
+struct CSys {
+    std::unique_ptr<mb::Model> M;
+    Motion motion, motion2; bool hasMotion = false, hasMotion2 = false;
+    Force::DiscreteForces inject;
+    int gi = 0, si = -1;
+    std::vector<Constraint> cons;
+    bool applicable = true; std::string whyNot;
+    int accBody = -1, accU = -1, accCons = -1, spdBody = -1, spdU = -1;    // targets of ConstantAcceleration / ConstantSpeed
+    bool hasBall = false;
+};
+static const Real CSPEED = -0.4, CACC = 0.9, STEADY2 = 0.45;
+
+static CSys buildCSys(const CCase& c, bool twin) {
+    CSys S;
+    static const int defKind[4] = {mb::KUniversal, mb::KBall, mb::KFree, mb::KPin};
+    static const int parent[4] = {-1, 0, -1, 1}, frames[4] = {3, 1, 2, 3}, mass[4] = {0, 1, 0, 1};   // (no near-point-mass body: 1/inertia would amplify the rounding of the cancelling injected forces in the twin)
+    std::vector<mb::BodySpec> specs(4);
+    for (int b = 0; b < 4; ++b) { specs[b].kind = defKind[b]; specs[b].parent = parent[b]; specs[b].frames = frames[b]; specs[b].mass = mass[b]; }
+    specs[c.pos].kind = c.kind; specs[c.pos].dir = c.dir;
+    S.gi = c.pos; S.si = c.sec == SNone ? -1 : (c.pos == 3 ? 0 : 3);
+    const bool euler = c.euler != 0;
+    S.M = mb::build(specs, euler);
+    mb::Model& M = *S.M;
+    Force::Gravity(M.forces, M.matter, UnitVec3(0.2, -1, 0.1), 9.8);
+    Force::MobilityLinearDamper(M.forces, M.bodies[c.pos == 1 ? 2 : 1], MobilizerUIndex(0), 0.8);
+    S.inject = Force::DiscreteForces(M.forces, M.matter);
+    const int otherBody = c.pos == 3 ? 0 : 3;     // first coordinate is an angle with qdot = u (Pin D / Universal A)
+    if (!twin) {
+        S.hasMotion = attachMotion(M, M.bodies[S.gi], c.gov, M.bodies[otherBody], S.motion);
+        if (c.sec == SSteady) { S.motion2 = Motion::Steady(M.bodies[S.si], STEADY2); S.hasMotion2 = true; }
+        if (c.sec == SSinA) { S.motion2 = Motion::Sinusoid(M.bodies[S.si], Motion::Acceleration, SA, SW, SP); S.hasMotion2 = true; }
+        // candidates for coordinate-type constraints: simple coordinates of mobilizers that are NOT governed
+        struct Cand { int body, qi, ui; }; std::vector<Cand> cands;
+        for (int b : {3, 0, 2}) { if (b == S.gi || b == S.si) continue; int qi, ui; if (simpleCoord(specs[b].kind, euler, qi, ui)) cands.push_back({b, qi, ui}); }
+        if (2 != S.gi && 2 != S.si) { int qi, ui; simpleCoord(mb::KFree, euler, qi, ui); cands.push_back({2, qi - 1, ui - 1}); }   // a second translation of the Free body C
+        if (0 != S.gi && 0 != S.si) cands.push_back({0, 1, 1});                                                                    // the second angle of the Universal joint A
+        auto rodBC = [&] { S.cons.push_back(Constraint::Rod(M.bodies[1], Vec3(0.2, -0.1, 0.15), M.bodies[2], Vec3(-0.1, 0.2, 0.05), 0.9)); };
+        auto accel = [&] {
+            if (2 != S.gi && 2 != S.si) { S.accBody = 2; S.accU = 1; }            // an angular speed of the Free body C (qdot != u)
+            else if (!cands.empty()) { S.accBody = cands[0].body; S.accU = cands[0].ui; }
+            else { S.applicable = false; S.whyNot = "no free mobility"; return; }
+            S.accCons = (int)S.cons.size();
+            S.cons.push_back(Constraint::ConstantAcceleration(M.bodies[S.accBody], MobilizerUIndex(S.accU), CACC));
+        };
+        auto coupler = [&](bool withGoverned) {
+            Array_<MobilizedBodyIndex> bodies; Array_<MobilizerQIndex> qi;
+            if (withGoverned) {
+                int gq, gu; if (!simpleCoord(c.kind, euler, gq, gu)) { S.applicable = false; S.whyNot = "governed kind has no coordinate with qdot=u"; return; }
+                if (cands.empty()) { S.applicable = false; S.whyNot = "no free coordinate"; return; }
+                bodies.push_back(M.bodies[S.gi].getMobilizedBodyIndex()); qi.push_back(MobilizerQIndex(gq));
+                bodies.push_back(M.bodies[cands[0].body].getMobilizedBodyIndex()); qi.push_back(MobilizerQIndex(cands[0].qi));
+            } else {
+                if (cands.size() < 2) { S.applicable = false; S.whyNot = "fewer than two free coordinates"; return; }
+                for (int k = 0; k < 2; ++k) { bodies.push_back(M.bodies[cands[k].body].getMobilizedBodyIndex()); qi.push_back(MobilizerQIndex(cands[k].qi)); }
+            }
+            S.cons.push_back(Constraint::CoordinateCoupler(M.matter, cons::makeCouplerFunction(2, 1, false), bodies, qi));
+        };
+        switch (c.cons) {
+            case CRodBC: rodBC(); break;
+            case CBallBC: S.cons.push_back(Constraint::Ball(M.bodies[1], Vec3(0.2, -0.1, 0.15), M.bodies[2], Vec3(-0.1, 0.2, 0.05))); S.hasBall = true; break;
+            case CRodGD: S.cons.push_back(Constraint::Rod(M.matter.updGround(), Vec3(0.4, 0.3, -0.2), M.bodies[3], Vec3(0.1, 0.1, 0), 0.8)); break;
+            case CRodAD: S.cons.push_back(Constraint::Rod(M.bodies[0], Vec3(0.1, 0, 0.2), M.bodies[3], Vec3(0, 0.25, 0.1), 0.6)); break;
+            case CSpeed:
+                if (cands.empty()) { S.applicable = false; S.whyNot = "no free mobility"; break; }
+                S.spdBody = cands[0].body; S.spdU = cands[0].ui;
+                S.cons.push_back(Constraint::ConstantSpeed(M.bodies[S.spdBody], MobilizerUIndex(S.spdU), CSPEED)); break;
+            case CAccel: accel(); break;
+            case CCouplerFree: coupler(false); break;
+            case CCouplerGov: coupler(true); break;
+            case CMulti: rodBC(); accel(); if (S.applicable) coupler(false); break;
+            default: break;
+        }
+    }
+    M.system.realizeTopology();
+    return S;
+}
+
+// smallest eigenvalue of a small symmetric matrix (cyclic Jacobi)
+static Real minEigSym(std::vector<std::vector<Real>> A) {
+    const int n = (int)A.size(); if (!n) return Infinity;
+    for (int sweep = 0; sweep < 30; ++sweep) {
+        Real off = 0; for (int i = 0; i < n; ++i) for (int j = i + 1; j < n; ++j) off += A[i][j] * A[i][j];
+        if (off < 1e-30) break;
+        for (int p = 0; p < n; ++p) for (int q = p + 1; q < n; ++q) {
+            if (std::abs(A[p][q]) < 1e-300) continue;
+            const Real th = (A[q][q] - A[p][p]) / (2 * A[p][q]); const Real t = (th >= 0 ? 1 : -1) / (std::abs(th) + std::sqrt(th * th + 1));
+            const Real cs = 1 / std::sqrt(t * t + 1), sn = t * cs;
+            for (int k = 0; k < n; ++k) { Real akp = A[k][p], akq = A[k][q]; A[k][p] = cs * akp - sn * akq; A[k][q] = sn * akp + cs * akq; }
+            for (int k = 0; k < n; ++k) { Real apk = A[p][k], aqk = A[q][k]; A[p][k] = cs * apk - sn * aqk; A[q][k] = sn * apk + cs * aqk; }
+        }
+    }
+    Real m = Infinity; for (int i = 0; i < n; ++i) m = std::min(m, A[i][i]); return m;
+}
+
+struct CTol { static constexpr double twin = 1e-10, udoterr = 1e-10, fd = 1e-6, power = 1e-12, workless = 1e-6, proj = 1e-8; };
+
+static Result runConstrained(verif::Run& run, const CCase& c, const std::vector<int>& hist, int vs) {
+    Result R; Fails& F = R.F;
+    CSys S = buildCSys(c, false);
+    if (!S.applicable) { run.count(std::string("constraint-not-applicable/") + cconsName(c.cons) + "/" + S.whyNot); R.rejected = true; return R; }
+    mb::Model& M = *S.M; const MobilizedBody& gb = M.bodies[S.gi];
+    State s = M.system.getDefaultState();
+    M.matter.setUseEulerAngles(s, M.euler); M.system.realizeModel(s);
+    const int nb = 4, nuAll = s.getNU();
+    std::vector<GovModel> G(nb);
+    { GovModel& g = G[S.gi]; g.gov = c.gov; g.motionEnabled = S.hasMotion; g.other = c.pos == 3 ? 0 : 3;
+      if (c.gov == GDefLockP) { g.lockLevel = 0; Vector q = gb.getQAsVector(s); g.lockVal.assign(&q[0], &q[0] + q.size()); }
+      if (c.gov == GDefLockV) { g.lockLevel = 1; g.lockVal.assign(gb.getNumU(s), 0.0); }
+      if (c.gov == GDefLockA) g.lockLevel = 2; }
+    auto quatMotionActive = [&] { for (int b = 0; b < nb; ++b) if (G[b].activeLevel() == 0 && !G[b].byLock() && mb::kindHasQuaternion(M.specs[b].kind) && !c.euler && G[b].gov != GQuatP) return true; return false; };
+    // item 4: prescribed values kept and constraints satisfied after project()
+    auto doProject = [&](const char* where) -> bool {
+        try { M.system.project(s, 1e-10); }
+        catch (const std::exception&) { run.count(std::string("project-threw/") + cconsName(c.cons)); return false; }
+        run.count(std::string("project-succeeded/") + cconsName(c.cons));
+        M.system.realize(s, Stage::Velocity);
+        for (int b = 0; b < nb; ++b) checkGoverned(M, s, b, G[b], F, false);
+        const Real qe = s.getNQErr() ? s.getQErr().normInf() : 0, ue = s.getNUErr() ? s.getUErr().normInf() : 0;
+        run.residual("project-leaves-position-error", qe, CTol::proj, [&] { return c.str() + " " + where; });
+        run.residual("project-leaves-velocity-error", ue, CTol::proj, [&] { return c.str() + " " + where; });
+        if (!(qe <= CTol::proj)) F.add("project-leaves-position-error", std::string(where) + " |qerr|=" + verif::fmtd(qe));
+        if (!(ue <= CTol::proj)) F.add("project-leaves-velocity-error", std::string(where) + " |uerr|=" + verif::fmtd(ue));
+        for (Stage g : {Stage::Position, Stage::Velocity}) {
+            Vector e = M.matter.calcMotionErrors(s, g);
+            for (int i = 0; i < e.size(); ++i) if (!(std::abs(e[i]) <= 1e-10)) F.add(std::string("project-leaves-motion-error/") + g.getName(), ix("error", i) + "=" + verif::fmtd(e[i]));
+        }
+        return true;
+    };
+    try {
+        for (int b = 0; b < nb; ++b) { mb::setBodyQ(M, s, b, 1, vs); mb::setBodyU(M, s, b, 1, vs); }
+        if (S.si >= 0) {
+            GovModel& g2 = G[S.si]; Fails ignore;     // the immediate effects of lockAt are judged on the primary mobilizer
+            switch (c.sec) {
+                case SLockP: opLock(M.bodies[S.si], s, g2, 0, F); break;
+                case SLockAtV: opLockAt(M, S.si, s, g2, 1, vs + 1, ignore); break;
+                case SLockAtA: opLockAt(M, S.si, s, g2, 2, vs + 1, ignore); break;
+                case SSteady: g2.gov = GSteady; g2.steadyRate = STEADY2; g2.motionEnabled = true; break;
+                case SSinA: g2.gov = GSinA; g2.motionEnabled = true; break;
+            }
+        }
+        GovModel& g = G[S.gi];
+        for (int o : hist) {
+            switch (o) {
+                case KLockP: opLock(gb, s, g, 0, F); break;
+                case KLockV: opLock(gb, s, g, 1, F); break;
+                case KLockA: opLock(gb, s, g, 2, F); break;
+                case KLockAtP: opLockAt(M, S.gi, s, g, 0, vs + 2, F); break;
+                case KLockAtV: opLockAt(M, S.gi, s, g, 1, vs + 2, F); break;
+                case KLockAtA: opLockAt(M, S.gi, s, g, 2, vs + 2, F); break;
+                case KUnlock: gb.unlock(s); g.lockLevel = -1; g.lockVal.clear(); break;
+                case KMotionDisable: if (S.hasMotion) { S.motion.disable(s); g.motionEnabled = false; } break;
+                case KMotionEnable: if (S.hasMotion) { S.motion.enable(s); g.motionEnabled = true; } break;
+                case KSetQ: mb::setBodyQ(M, s, S.gi, 1, vs + 1); break;
+                case KSetU: mb::setBodyU(M, s, S.gi, 1, vs + 1); break;
+                case KSetTime: s.setTime(0.3); break;
+                case KPrescribe: M.system.realize(s, Stage::Time); M.system.prescribe(s); break;
+                case KProject: if (!quatMotionActive()) doProject("op"); else M.system.project(s, 1e-10); break;
+                case KRealizeAcc: M.system.realize(s, Stage::Acceleration); break;
+                case KSetOthers: for (int b = 0; b < nb; ++b) if (b != S.gi && b != S.si) { mb::setBodyQ(M, s, b, 1, vs + 1); mb::setBodyU(M, s, b, 1, vs + 1); } break;
+                case KConsDisable: if (!S.cons.empty() && !S.cons[0].isDisabled(s)) S.cons[0].disable(s); break;
+                case KConsEnable: if (!S.cons.empty() && S.cons[0].isDisabled(s)) S.cons[0].enable(s); break;
+            }
+        }
+    } catch (const std::exception& e) {
+        run.count("history-rejected-by-library"); R.rejected = true; return R;
+    }
+    if (quatMotionActive()) { run.count("skipped:position-level-motion-on-quaternion"); R.rejected = true; return R; }
+
+    // the twin: same tree and forces, no Motion, no lock, no Constraint
+    CSys T = buildCSys(c, true);
+    mb::Model& TM = *T.M;
+    State tsDefault = TM.system.getDefaultState(); TM.matter.setUseEulerAngles(tsDefault, TM.euler); TM.system.realizeModel(tsDefault);
+
+    int nGovU = 0; bool anyGov = false;
+    std::vector<char> udotFree(nuAll, 1);
+    for (int b = 0; b < nb; ++b) if (G[b].activeLevel() >= 0) {
+        anyGov = true; const int n = M.bodies[b].getNumU(s); nGovU += n;
+        const int u0 = M.bodies[b].getFirstUIndex(s); for (int i = 0; i < n; ++i) udotFree[u0 + i] = 0;
+    }
+    uint64_t oh = 0;
+    auto evaluate = [&](const char* ph, bool onManifold) {
+        const std::string where = c.str() + " phase=" + ph;
+        const Real t = s.getTime();
+        run.transition(1);
+        // (a) governed values of every governed mobilizer
+        for (int b = 0; b < nb; ++b) checkGoverned(M, s, b, G[b], F, true);
+        for (Stage g : {Stage::Position, Stage::Velocity, Stage::Acceleration}) {
+            Vector e = M.matter.calcMotionErrors(s, g);
+            for (int i = 0; i < e.size(); ++i) if (!(std::abs(e[i]) <= 1e-10)) F.add(std::string("calcMotionErrors-nonzero/") + g.getName(), ix("error", i) + "=" + verif::fmtd(e[i]));
+        }
+        Vector tau; M.matter.findMotionForces(s, tau);
+        const int nMult = M.matter.getMotionMultipliers(s).size();
+        if (nMult != nGovU) F.add("motion-multiplier-count", "getMotionMultipliers has " + std::to_string(nMult) + " entries, expected " + std::to_string(nGovU));
+        for (int i = 0; i < nuAll; ++i) if (udotFree[i] && tau[i] != 0) F.add("motion-force-on-free-mobility", ix("tau", i) + "=" + verif::fmtd(tau[i]));
+        // (b) constraint acceleration errors
+        const Vector lambda = M.matter.getConstraintMultipliers(s);
+        const int m = lambda.size();
+        const Vector& udot = s.getUDot(); const Vector& u = s.getU();
+        const Real udScale = std::max(Real(1), udot.normInf()), uScale = std::max(Real(1), u.normInf());
+        bool wellPosed = true; Real gNorm = 1;
+        if (m > 0) {
+            Matrix Gm; M.matter.calcG(s, Gm);
+            std::vector<std::vector<Real>> A(m, std::vector<Real>(m, 0));
+            std::vector<Real> rn(m, 0);
+            for (int i = 0; i < m; ++i) { for (int k = 0; k < nuAll; ++k) rn[i] += Gm(i, k) * Gm(i, k); rn[i] = std::sqrt(rn[i]); gNorm = std::max(gNorm, rn[i]); }
+            for (int i = 0; i < m; ++i) for (int j = 0; j < m; ++j) { Real a = 0; for (int k = 0; k < nuAll; ++k) if (udotFree[k]) a += Gm(i, k) * Gm(j, k); A[i][j] = (rn[i] > 0 && rn[j] > 0) ? a / (rn[i] * rn[j]) : 0; }
+            wellPosed = minEigSym(A) > 1e-4;      // the rows of G restricted to the free accelerations are well independent
+            run.count(wellPosed ? "constraints-well-posed-on-free-accelerations" : "unspecified:constraints-rank-deficient-on-free-accelerations");
+            if (wellPosed) {
+                const Real sc = gNorm * udScale * uScale * uScale;
+                const Real e = s.getUDotErr().normInf() / sc;
+                run.residual("constraint-acceleration-error(library)", e, CTol::udoterr, [&] { return where; });
+                if (!(e <= CTol::udoterr)) F.add("constraint-acceleration-error-nonzero", std::string(ph) + " scaled |udoterr|=" + verif::fmtd(e));
+                // acceleration-only and speed constraints, read directly from udot
+                if (S.accBody >= 0 && !S.cons[S.accCons].isDisabled(s)) { const Real a = M.bodies[S.accBody].getOneUDot(s, S.accU); if (!(std::abs(a - CACC) <= 1e-10 * udScale)) F.add("ConstantAcceleration-not-honoured", "udot=" + verif::fmtd(a)); }
+                if (S.spdBody >= 0 && !S.cons[0].isDisabled(s)) { const Real a = M.bodies[S.spdBody].getOneUDot(s, S.spdU); if (!(std::abs(a) <= 1e-10 * udScale)) F.add("ConstantSpeed-udot-not-zero", "udot=" + verif::fmtd(a)); }
+                // independent: d/dt of the velocity errors along the motion (q + h qdot, u + h udot), 4th-order central differences,
+                // Richardson pair.  The Ball's velocity error is that of a material point of body 1, so its time derivative equals
+                // the acceleration error only on the velocity manifold.
+                const int mpv = s.getNUErr();
+                const bool ballEnabled = S.hasBall && !S.cons[0].isDisabled(s);
+                if (mpv > 0 && (!ballEnabled || onManifold)) {
+                    State w = s; const Vector q0 = s.getQ(), u0 = s.getU(), qd = s.getQDot(), ud = s.getUDot();
+                    auto verrAt = [&](Real h) { w.updQ() = q0 + h * qd; w.updU() = u0 + h * ud; M.system.realize(w, Stage::Velocity); return Vector(w.getUErr()); };
+                    auto d1 = [&](Real h) { Vector d = (8.0 * (verrAt(h) - verrAt(-h)) - (verrAt(2 * h) - verrAt(-2 * h))) / (12 * h); return d; };
+                    const Vector da = d1(2e-3), db = d1(1e-3);
+                    if ((da - db).normInf() / sc > 1e-8) run.count("skipped:finite-difference-pair-disagrees");
+                    else {
+                        const Real e2 = db.normInf() / sc;
+                        run.residual("d/dt-velocity-error-along-motion(finite-difference)", e2, CTol::fd, [&] { return where; });
+                        if (!(e2 <= CTol::fd)) F.add("velocity-error-grows-along-motion", std::string(ph) + " scaled |d verr/dt|=" + verif::fmtd(e2));
+                    }
+                }
+            }
+        }
+        // (c) Newton's law through the twin: -tau as mobility forces, constraint forces from -lambda as body + mobility forces
+        // (a constraint that the free accelerations cannot satisfy gets an arbitrary, possibly astronomically large multiplier:
+        //  nothing is documented for that case and the comparison would only measure cancellation)
+        Vector_<SpatialVec> bf; Vector mf;
+        if (m > 0) { Vector nl = -1.0 * lambda; M.matter.calcConstraintForcesFromMultipliers(s, nl, bf, mf); }
+        State ts = tsDefault;
+        ts.setTime(t); ts.updQ() = s.getQ(); ts.updU() = s.getU();
+        if (anyGov || m > 0) {
+            Vector f = -1.0 * tau; if (m > 0) f += mf;
+            T.inject.setAllMobilityForces(ts, f);
+            if (m > 0) T.inject.setAllBodyForces(ts, bf);
+        }
+        TM.system.realize(ts, Stage::Acceleration);
+        const Vector& a = s.getUDot(); const Vector& b = ts.getUDot();
+        if (m > 0 && !wellPosed) run.count("unspecified:twin-not-compared-for-rank-deficient-constraints");
+        else if (!anyGov && m == 0) {
+            for (int i = 0; i < a.size(); ++i) if (memcmp(&a[i], &b[i], sizeof(double))) F.add("ungoverned-differs-from-twin", ix("udot", i) + "=" + verif::fmtd(a[i]) + " twin " + verif::fmtd(b[i]));
+        } else {
+            Real scale = 1; for (int i = 0; i < a.size(); ++i) scale = std::max({scale, std::abs(a[i]), std::abs(b[i])});
+            Real worst = 0; for (int i = 0; i < a.size(); ++i) worst = std::max(worst, std::abs(a[i] - b[i]) / scale);
+            run.residual(m > 0 ? "udot-vs-twin-with-motion-and-constraint-forces" : "udot-vs-twin-with-motion-forces(4-body)", worst, CTol::twin, [&] { return where; });
+            if (!(worst <= CTol::twin)) F.add(m > 0 ? "udot-vs-twin-with-motion-and-constraint-forces" : "udot-vs-twin-with-motion-forces", std::string(ph) + " worst relative difference " + verif::fmtd(worst));
+        }
+        // (d) documented power bookkeeping
+        checkMotionPower(M.matter, s, tau, F);
+        if (m > 0) {
+            Vector_<SpatialVec> Fc; Vector fc; M.matter.findConstraintForces(s, Fc, fc);
+            Vector_<SpatialVec> F2; Vector f2; M.matter.calcConstraintForcesFromMultipliers(s, lambda, F2, f2);
+            Real fs = 1, fe = 0;
+            for (int i = 0; i < Fc.size(); ++i) for (int k = 0; k < 2; ++k) for (int j = 0; j < 3; ++j) { fs = std::max(fs, std::abs(Fc[i][k][j])); fe = std::max(fe, std::abs(Fc[i][k][j] - F2[i][k][j])); }
+            for (int i = 0; i < fc.size(); ++i) { fs = std::max(fs, std::abs(fc[i])); fe = std::max(fe, std::abs(fc[i] - f2[i])); }
+            run.residual("findConstraintForces-vs-forces-from-multipliers", fe / fs, CTol::power, [&] { return where; });
+            if (!(fe / fs <= CTol::power)) F.add("findConstraintForces-differs-from-multiplier-forces", verif::fmtd(fe / fs));
+            Real ref = 0, sc = 1;
+            for (int i = 0; i < Fc.size(); ++i) { const SpatialVec& V = M.matter.getMobilizedBody(MobilizedBodyIndex(i)).getBodyVelocity(s); const Real p = ~Fc[i][0] * V[0] + ~Fc[i][1] * V[1]; ref -= p; sc += std::abs(p); }
+            for (int i = 0; i < fc.size(); ++i) { ref -= fc[i] * u[i]; sc += std::abs(fc[i] * u[i]); }
+            const Real pc = M.matter.calcConstraintPower(s);
+            run.residual("calcConstraintPower-vs-documented-formula", std::abs(pc - ref) / sc, CTol::power, [&] { return where; });
+            if (!(std::abs(pc - ref) <= CTol::power * sc)) F.add("calcConstraintPower-not-documented-formula", "power " + verif::fmtd(pc) + " expected " + verif::fmtd(ref));
+            Real sum = 0; for (auto& k : S.cons) if (!k.isDisabled(s)) sum += k.calcPower(s);
+            if (!(std::abs(pc - sum) <= CTol::power * sc)) F.add("calcConstraintPower-not-sum-of-Constraint::calcPower", "power " + verif::fmtd(pc) + " sum " + verif::fmtd(sum));
+            // scleronomic holonomic constraints do no work on the velocity manifold
+            if (onManifold && (c.cons == CRodBC || c.cons == CBallBC || c.cons == CRodGD || c.cons == CRodAD || c.cons == CCouplerFree || c.cons == CCouplerGov)) {
+                run.residual("workless-constraint-power-on-manifold", std::abs(pc) / sc, CTol::workless, [&] { return where; });
+                if (!(std::abs(pc) <= CTol::workless * sc)) F.add("workless-constraint-does-work-on-manifold", "power " + verif::fmtd(pc));
+            }
+        }
+        oh = verif::hashMix(oh, verif::hashPod(m * 1000 + nMult * 10 + (wellPosed ? 1 : 0) + (onManifold ? 2 : 0)));
+        if (run.verbose) {
+            printf("%s\n t=%g m=%d wellPosed=%d\n udot(all)=", where.c_str(), t, m, (int)wellPosed);
+            for (int i = 0; i < a.size(); ++i) printf("%.17g ", a[i]); printf("\n twin udot="); for (int i = 0; i < b.size(); ++i) printf("%.17g ", b[i]);
+            printf("\n tau="); for (int i = 0; i < tau.size(); ++i) printf("%.17g ", tau[i]);
+            printf("\n lambda="); for (int i = 0; i < m; ++i) printf("%.17g ", lambda[i]);
+            printf("\n udoterr="); for (int i = 0; i < s.getNUDotErr(); ++i) printf("%.17g ", s.getUDotErr()[i]); printf("\n");
+        }
+    };
+    // phase A: prescribe, realize (the state need not satisfy the position / velocity constraints)
+    try {
+        M.system.realize(s, Stage::Time);
+        M.system.prescribe(s);
+        M.system.realize(s, Stage::Acceleration);
+    } catch (const std::exception& e) {
+        run.count(std::string("final-realize-threw/") + govName(c.gov)); R.rejected = true; return R;
+    }
+    evaluate("prescribe", false);
+    // phase B: project (prescribed values kept, constraints satisfied), realize
+    bool projectOk = false;
+    if (!S.cons.empty()) {
+        projectOk = doProject("final");
+        if (projectOk) {
+            try { M.system.realize(s, Stage::Acceleration); evaluate("project", true); }
+            catch (const std::exception& e) { run.count(std::string("realize-after-project-threw/") + cconsName(c.cons)); }
+        }
+    }
+    run.outcome(verif::hashMix(oh, verif::hashPod(c.gov * 64 + c.cons * 4 + (projectOk ? 1 : 0))));
+    return R;
+}
+
+// violation key = failing clause / governance kind [/ constraint set]; the immediate effect of lockAt(values, Velocity) on the
+// state does not depend on what governs the mobilizer or on the constraints, so that clause is its own key
+static std::string keyOf(const std::string& clause, const std::string& suffix) { return clause == "lockAt(V)-did-not-set-u-immediately" ? clause : clause + "/" + suffix; }
+static std::string histStr(const std::vector<int>& h, const char* (*nm)(int) = opName) { std::string s; for (int o : h) s += std::string(nm(o)) + " ; "; return s; }
 static std::string histIdx(const std::vector<int>& h) { std::string s; for (size_t i = 0; i < h.size(); ++i) s += (i ? "," : "") + std::to_string(h[i]); return s; }
+static std::vector<std::vector<int>> allHistories(int depth, int nops) {
+    std::vector<std::vector<int>> hists = {{}};
+    for (int d = 1; d <= depth; ++d) { size_t n0 = hists.size(); for (size_t i = 0; i < n0; ++i) if ((int)hists[i].size() == d - 1) for (int o = 0; o < nops; ++o) { auto h = hists[i]; h.push_back(o); hists.push_back(h); } }
+    return hists;
+}
 
 int main(int argc, char** argv) {
     verif::Run run("C10", argc, argv);
     run.setDeadline(240, 3000);
     const bool th = run.thorough();
     const int depth = th ? 3 : 2;
-    run.rule = "E2: case = (governed mobilizer kind x direction x role{base,tip} x coordinate option x governance kind{free, Steady, Sinusoid P/V/A, Custom P/V, lockByDefault P/V/A}) x every operation history of depth <= d over 13 operations; oracle after each history as described in the header; distinct = distinct (case, history); non-trivial = some governance is active at the end";
-    run.assumptions = {"two-body trees (governed body + a Pin companion)", "position-level Motions on quaternion coordinates are skipped (counted) when the library refuses them", "prescribed values compared to 1e-12 relative (locks bitwise), udot against the twin to 1e-11 relative"};
+    const int vs = (int)(((run.seed % 3) + 3) % 3);
+    run.rule = "E2. Section histories: case = (governed mobilizer kind (16) x direction x role{base,tip} x coordinate option x governance kind{free, Steady, Sinusoid P/V/A, Custom P/V/A (A: udot(t,q,u) through calcPrescribedAcceleration only), Custom V depending on another mobilizer's q, unit-quaternion Custom P, lockByDefault P/V/A}) x every operation history of depth <= 2 (quick) / 3 (thorough) over 16 operations (lock, and lockAt with explicit non-zero values, at each of the three levels; unlock; Motion disable/enable; Steady.setRate; set q/u; set time; prescribe; realize). "
+               "Section constrained: four-body tree Ground-A-B-D, Ground-C; case = (governed kind x governed position A/B/C/D x coordinate option x 13 governance kinds x 10 constraint sets {none, Rod(B,C), Ball(B,C), Rod(Ground,D), Rod(A,D) (ancestor A), ConstantSpeed and ConstantAcceleration on a free mobility, CoordinateCoupler(free,free), CoordinateCoupler(governed,free), Rod+ConstantAcceleration+Coupler} (the governed mobilizer is inside the loop for some positions and outside for others) x second governed mobilizer {none, lock(P), Motion::Steady; thorough also lockAt(V), Sinusoid(A), lockAt(A)}) x every history of depth <= 1 over 18 operations (the 6 lock operations, unlock, Motion disable/enable, set q/u, set time, prescribe, project, realize, set the other bodies' q/u, constraint disable/enable); thorough adds every depth-2 history with no second governed mobilizer. "
+               "Oracle after each history as described in the header; distinct = distinct (case, history); non-trivial = the history was accepted and judged";
+    run.assumptions = {"two-body trees (governed body + a Pin companion) in section histories; one fixed four-body tree in section constrained with a generic start state from value table seed%3",
+        "position-level Motions on quaternion coordinates are skipped (counted) when the library refuses them",
+        "prescribed values compared to 1e-12 relative (locks bitwise), udot against the twin to 1e-11 relative (1e-10 with constraints)",
+        "constraint acceleration errors are demanded to vanish only when the rows of G restricted to the free accelerations are independent (smallest eigenvalue of the row-normalised Gram matrix > 1e-4, computed in the harness); otherwise counted as unspecified",
+        "project() is called with accuracy 1e-10; when it throws (state too far from the manifold, or constraint inconsistent with the prescription) the projected phase is skipped and counted"};
     const int kinds[] = {mb::KPin, mb::KSlider, mb::KUniversal, mb::KCylinder, mb::KPlanar, mb::KGimbal, mb::KBushing, mb::KBall, mb::KFree, mb::KTranslation, mb::KScrew, mb::KEllipsoid, mb::KBendStretch, mb::KSphericalDefault, mb::KCustomPin, mb::KFBPlanar};
     std::vector<Case> cases;
     for (int k : kinds) for (int dir = 0; dir < 2; ++dir) for (int role = 0; role < 2; ++role) for (int eu = 0; eu < 2; ++eu) for (int g = 0; g < NGOV; ++g) {
@@ -288,30 +766,71 @@ int main(int argc, char** argv) {
         if (g == GQuatP && (eu || !(k == mb::KBall || k == mb::KFree))) continue;   // unit-quaternion trajectory: Ball and Free in quaternion mode
         cases.push_back({k, dir, role, eu, g});
     }
-    std::vector<std::vector<int>> hists = {{}};
-    for (int d = 1; d <= depth; ++d) { size_t n0 = hists.size(); for (size_t i = 0; i < n0; ++i) if ((int)hists[i].size() == d - 1) for (int o = 0; o < NOPS; ++o) { auto h = hists[i]; h.push_back(o); hists.push_back(h); } }
+    const std::vector<std::vector<int>> hists = allHistories(depth, NOPS);
 
+    // ---- section constrained: cases
+    struct KD { int kind, dir; };
+    std::vector<KD> ckinds = {{mb::KPin, 0}, {mb::KUniversal, 0}, {mb::KBall, 0}, {mb::KFree, 0}};
+    if (th) for (KD x : std::vector<KD>{{mb::KPin, 1}, {mb::KSlider, 0}, {mb::KPlanar, 0}, {mb::KGimbal, 0}, {mb::KFree, 1}, {mb::KEllipsoid, 0}}) ckinds.push_back(x);
+    const int nsec = th ? (int)NSEC : 3;
+    std::vector<CCase> ccases; std::vector<int> cdepth;
+    for (int pass = 0; pass < (th ? 2 : 1); ++pass)            // pass 0: depth <= 1, all second governors; pass 1 (thorough): depth 2 exactly, no second governor, the four quick kinds
+        for (size_t ki = 0; ki < (pass ? (size_t)4 : ckinds.size()); ++ki) for (int pos = 0; pos < 4; ++pos) for (int eu = 0; eu < 2; ++eu) for (int g = 0; g < NGOV; ++g) for (int cn = 0; cn < NCC; ++cn) for (int sec = 0; sec < (pass ? 1 : nsec); ++sec) {
+            const KD kd = ckinds[ki];
+            if (eu && !th && !mb::kindHasQuaternion(kd.kind)) continue;            // quick: the Euler option only when the governed mobilizer itself has a quaternion
+            if (g == GQuatP && (eu || !(kd.kind == mb::KBall || kd.kind == mb::KFree))) continue;
+            ccases.push_back({kd.kind, kd.dir, pos, eu, g, cn, sec}); cdepth.push_back(pass ? 2 : 1);
+        }
+    const std::vector<std::vector<int>> chists1 = allHistories(1, NCOPS);
+    std::vector<std::vector<int>> chists2; for (auto& h : allHistories(2, NCOPS)) if (h.size() == 2) chists2.push_back(h);
+
+    auto caseReplay = [](const Case& c, const std::vector<int>& h, int64_t i) {
+        return "section=histories\nitem=" + std::to_string(i) + "\nkind=" + std::to_string(c.kind) + "\ndir=" + std::to_string(c.dir) + "\nrole=" + std::to_string(c.role) + "\neuler=" + std::to_string(c.euler) + "\ngov=" + std::to_string(c.gov) + "\nhistory=" + histIdx(h) + "\n";
+    };
+    auto ccaseReplay = [&](const CCase& c, const std::vector<int>& h, int64_t i) {
+        return "section=constrained\nitem=" + std::to_string(i) + "\nkind=" + std::to_string(c.kind) + "\ndir=" + std::to_string(c.dir) + "\npos=" + std::to_string(c.pos) + "\neuler=" + std::to_string(c.euler) + "\ngov=" + std::to_string(c.gov) + "\ncons=" + std::to_string(c.cons) + "\nsec=" + std::to_string(c.sec) + "\nvalueset=" + std::to_string(vs) + "\nhistory=" + histIdx(h) + "\n";
+    };
     if (run.replaying()) {
-        Case c{atoi(run.replayField("kind").c_str()), atoi(run.replayField("dir").c_str()), atoi(run.replayField("role").c_str()), atoi(run.replayField("euler").c_str()), atoi(run.replayField("gov").c_str())};
         std::vector<int> h; { std::stringstream ss(run.replayField("history")); std::string t; while (std::getline(ss, t, ',')) if (!t.empty()) h.push_back(atoi(t.c_str())); }
-        printf("case %s history [%s]\n", c.str().c_str(), histStr(h).c_str());
-        Result r = runHistory(run, c, h);
-        if (r.ok) { printf("holds (%s)\n", r.key.c_str()); return 0; }
-        printf("FAILS key=%s %s\nVIOLATION property=C10 replay=%s\n", r.key.c_str(), r.what.c_str(), run.replayPath.c_str());
+        auto fld = [&](const char* n) { return atoi(run.replayField(n).c_str()); };
+        Result r;
+        if (run.replayField("section") == "constrained") {
+            CCase c{fld("kind"), fld("dir"), fld("pos"), fld("euler"), fld("gov"), fld("cons"), fld("sec")};
+            printf("case %s history [%s]\n", c.str().c_str(), histStr(h, copName).c_str());
+            r = runConstrained(run, c, h, fld("valueset"));
+        } else {
+            Case c{fld("kind"), fld("dir"), fld("role"), fld("euler"), fld("gov")};
+            printf("case %s history [%s]\n", c.str().c_str(), histStr(h).c_str());
+            r = runHistory(run, c, h);
+        }
+        if (r.ok()) { printf("holds%s\n", r.rejected ? " (rejected)" : ""); return 0; }
+        for (auto& f : r.F.v) printf("FAILS key=%s %s\n", f.first.c_str(), f.second.c_str());
+        printf("VIOLATION property=C10 replay=%s\n", run.replayPath.c_str());
         return 1;
     }
     run.parallel("histories", (int64_t)cases.size(), [&](int64_t i) {
         const Case& c = cases[i];
         for (auto& h : hists) {
             Result r = runHistory(run, c, h);
-            if (r.key == "rejected") { run.evaluationDistinct(false); continue; }
+            if (r.rejected) { run.evaluationDistinct(false); continue; }
             run.evaluationDistinct(true);
-            if (!r.ok) run.violation(r.key + "/" + govName(c.gov), c.str() + " history [" + histStr(h) + "]: " + r.what,
-                "section=histories\nitem=" + std::to_string(i) + "\nkind=" + std::to_string(c.kind) + "\ndir=" + std::to_string(c.dir) + "\nrole=" + std::to_string(c.role) + "\neuler=" + std::to_string(c.euler) + "\ngov=" + std::to_string(c.gov) + "\nhistory=" + histIdx(h) + "\n");
+            for (auto& f : r.F.v) run.violation(keyOf(f.first, govName(c.gov)), c.str() + " history [" + histStr(h) + "]: " + f.second, caseReplay(c, h, i));
         }
         if (i % 37 == 0) run.sample(c.str() + " x " + std::to_string(hists.size()) + " histories, e.g. [" + histStr(hists.back()) + "]");
     });
+    run.parallel("constrained", (int64_t)ccases.size(), [&](int64_t i) {
+        const CCase& c = ccases[i];
+        for (auto& h : (cdepth[i] == 1 ? chists1 : chists2)) {
+            Result r = runConstrained(run, c, h, vs);
+            if (r.rejected) { run.evaluationDistinct(false); continue; }
+            run.evaluationDistinct(true);
+            for (auto& f : r.F.v) run.violation(keyOf(f.first, std::string(govName(c.gov)) + "/" + cconsName(c.cons)), c.str() + " history [" + histStr(h, copName) + "]: " + f.second, ccaseReplay(c, h, i));
+        }
+        if (i % 997 == 0) run.sample(c.str() + " x " + std::to_string(cdepth[i] == 1 ? chists1.size() : chists2.size()) + " histories");
+    });
     run.extraCoverage["history_depth"] = std::to_string(depth);
     run.extraCoverage["histories_per_case"] = std::to_string(hists.size());
+    run.extraCoverage["constrained_cases"] = std::to_string(ccases.size());
+    run.extraCoverage["constrained_histories_per_case_depth1"] = std::to_string(chists1.size());
     return run.finish();
 }
